@@ -6,7 +6,7 @@ signed digest = requested digest).
     receiver-side classification, a pin-per-(sender, round) broadcast layer, attribution to the transport sender, Byzantine
     members / outsiders re-sending captured content with or without an embedded sender claim).  Mutated variants of the model
     (two broadcast types sharing a round, a misclassified type, attribution to the embedded claim) must be REJECTED by TLC
-    (the invariants can fail).
+    (the invariants can fail); so must a party index found by lower-bound search without equality check.
  2. The REAL adapters are driven through their exported API (harness/cmd/drv/adapters.go): complete EdDSA key generations and
     signings for several (n, t), ECDSA signings from a stored key (quick) / after a real key generation (thorough), the
     sender-binding probes and the seeded digests; ClassifyMsg on hand-built envelopes for every URL of the spec tables.
@@ -23,7 +23,7 @@ sys.path.insert(0, os.path.dirname(os.path.abspath(__file__)))
 import vlib
 from vlib import log
 
-MONITORS = ["ClassifiedAsRouted", "DistinctRounds", "ClassifiedAlike", "SenderAttribution", "EmbeddedMismatchDropped", "ProbeNoEffect",
+MONITORS = ["ClassifiedAsRouted", "DistinctRounds", "ClassifiedAlike", "SenderAttribution", "EmbeddedMismatchDropped", "NonMemberRejected", "ProbeNoEffect",
             "RunCompletes", "KeyAgreement", "SignedDigestIsRequested", "NoPanic"]
 OUTCOME_MONITORS = ("RunCompletes", "ProbeNoEffect")
 URL_PREFIX = "type.googleapis.com/binance.tsslib."
@@ -86,7 +86,7 @@ LNext == /\\ Assert(LawsOK, "table / digest laws of spec/Adapters.tla violated")
 ====
 """ % name)
     with open(os.path.join(wd, name + ".cfg"), "w") as f:
-        f.write("CONSTANTS Parties <- c_Parties Byz <- c_Empty Outsiders <- c_Empty Table <- c_Empty MaxSpoof = 0 TrustEmbedded = FALSE\n"
+        f.write("CONSTANTS Parties <- c_Parties Byz <- c_Empty Outsiders <- c_Empty Table <- c_Empty MaxSpoof = 0 TrustEmbedded = FALSE NearestIndex = FALSE\n"
                 "INIT Init\nNEXT LNext\n")
     r = vlib.run_tlc(name, name + ".cfg", ["Adapters.tla"], workdir=wd, workers=1, timeout=300, keep_prints=["TAB"])
     if r.violation:
@@ -119,11 +119,11 @@ def tlc_model(wd, tr):
         return r, dict(config=name, table=table, constants=consts, invariants=invariants, distinct_states=r.distinct,
                        states_generated=r.generated, depth=r.depth, wall_s=round(r.wall, 1), expected_violation=expect, result=r.violation or "holds")
 
-    hon = dict(Parties=[1, 2, 3], Byz=[], Outsiders=[], MaxSpoof=0, TrustEmbedded=False)
-    byz = dict(Parties=[1, 2, 3], Byz=[3], Outsiders=[], MaxSpoof=1, TrustEmbedded=False)
+    hon = dict(Parties=[1, 2, 3], Byz=[], Outsiders=[], MaxSpoof=0, TrustEmbedded=False, NearestIndex=False)
+    byz = dict(hon, Byz=[3], MaxSpoof=1)
     byzo = dict(byz, Outsiders=[9])
     hon2 = dict(hon, Parties=[1, 2])
-    byz2 = dict(byzo, Parties=[1, 2], Byz=[2])
+    byz2 = dict(byzo, Parties=[1, 2], Byz=[2], Outsiders=[0])     # an outsider below every participant
     # largest first
     if tr == "thorough":
         run("ec_kg_b", byzo, 'PhaseOf(ECDSATable, "keygen")', inv_byz, timeout=2400)
@@ -146,6 +146,11 @@ def tlc_model(wd, tr):
     misclass = ('{IF x.url = "eddsa.signing.SignRound2Message" THEN [x EXCEPT !.bcast = FALSE] ELSE x : x \\in PhaseOf(EdDSATable, "sign")}')
     run("mut_class", hon, misclass, inv_hon, expect=["NoBroadcastOnP2PPath", "Totality"])
     run("mut_embed", dict(byzo, TrustEmbedded=True), 'PhaseOf(EdDSATable, "keygen")', inv_byz, expect=["SenderBinding", "HonestNotImpersonated"])
+    # (d) party index by lower-bound search without equality check: a non-participant between / below the participants is filed
+    #     under a participant
+    run("mut_index", dict(hon, Parties=[1, 3], Outsiders=[2], MaxSpoof=1, NearestIndex=True), 'PhaseOf(EdDSATable, "sign")', inv_byz,
+        expect=["SenderBinding", "HonestNotImpersonated"])
+    run("ed_sg_gap", dict(hon, Parties=[1, 3, 5], Outsiders=[0, 4], MaxSpoof=1), 'PhaseOf(EdDSATable, "sign")', inv_byz)
     ev = []
     st = trn = 0
     with concurrent.futures.ThreadPoolExecutor(max_workers=3) as ex:
@@ -247,6 +252,58 @@ def probe_cases(urls, ids, rng, share, cap=0):
     return res
 
 
+def standin_cases(entries, ids, rng, cap=0):
+    """a NON-member x stands in for member M at receiver p with a message of type T produced by another party a: every type of
+    the phase x every gap of the committee (below the smallest member, strictly between members, above the largest) x the
+    neighbouring members as victims x receivers"""
+    ids = sorted(ids)
+    steps = {}
+    for e in entries:
+        steps.setdefault(e["step"], []).append(e["url"])
+    xs = []                                   # (outsider id, [victims])
+    if ids[0] > 0:
+        xs.append((0, [ids[0]]))
+        if ids[0] > 1:
+            xs.append((ids[0] - 1, [ids[0]]))
+    for lo, hi in zip(ids, ids[1:]):
+        if hi - lo > 1:
+            cand = sorted(set([lo + 1, hi - 1, (lo + hi) // 2]))
+            for x in cand[:2] if hi - lo > 2 else cand[:1]:
+                xs.append((x, [hi, lo]))      # the next larger member first (what a lower-bound search would return)
+    if ids[-1] < 65535:
+        xs.append((ids[-1] + 1, [ids[-1]]))
+    res = []
+    for e in sorted(entries, key=lambda z: z["url"]):
+        nxt = sorted(steps.get(e["step"] + 1, []))
+        for x, victims in xs:
+            for m in victims:
+                for p in ids:
+                    if p == m:
+                        continue
+                    others = [a for a in ids if a != m]          # content of another party (may be the receiver's own)
+                    a = rng.choice([a for a in others if a != p] or others)
+                    res.append(dict(kind="standin", at=p, url=e["url"], a=a, b=x, m=m, flag=bool(e["lib"]),
+                                    step_urls=sorted(steps[e["step"]]), next_urls=nxt))
+    if cap and len(res) > cap:
+        # keep the spread over types and gaps: round-robin over (type, outsider)
+        groups = {}
+        for c in res:
+            groups.setdefault((c["url"], c["b"]), []).append(c)
+        for k in groups:
+            rng.shuffle(groups[k])
+        keys = sorted(groups)
+        rng.shuffle(keys)
+        keep = []
+        while len(keep) < cap and any(groups.values()):
+            for k in keys:
+                if groups[k] and len(keep) < cap:
+                    # prefer the next larger member as victim
+                    groups[k].sort(key=lambda c: c["m"] < c["b"])
+                    keep.append(groups[k].pop(0))
+        res = keep
+    return res
+
+
 class Plan:
     def __init__(self):
         self.sessions = []
@@ -288,10 +345,11 @@ def plan_for(tr, rng, tabs, wd):
     big = tr == "thorough"
     # ---- EdDSA: complete key generations + signings -------------------------------------------------------------
     # party identifiers: 1..n, the byte-boundary identifiers incl. 65535 (must complete like small-id sessions), seeded ones
-    configs = [([1, 2], 1), ([1, 2, 3], 1), ([1, 2, 3], 2), ([1, 256, 65535], 1), ([255, 65280, 65534], 2),
+    configs = [([1, 2], 1), ([1, 2, 3], 1), ([1, 3, 5], 2), ([2, 256, 65535], 1), ([255, 65280, 65534], 2),
                (sorted(rng.sample(range(1, 65536), 3)), 1)]
+    ents = {ad: {ph: [e for e in tabs[ad] if e["phase"] == ph] for ph in ("keygen", "sign")} for ad in tabs}
     if big:
-        configs += [([1, 2, 3, 4], 3), ([1, 2, 3, 4], 2), ([1, 256, 65280, 65535], 2), ([65535, 127], 1), ([128, 257, 32768], 1),
+        configs += [([1, 2, 3], 2), ([1, 256, 65535], 1), ([1, 2, 3, 4], 3), ([1, 2, 3, 4], 2), ([1, 256, 65280, 65535], 2), ([65535, 127], 1), ([128, 257, 32768], 1),
                     ([511, 512, 32767, 65279], 3), (sorted(rng.sample(range(1, 65536), 4)), 2)]
     for ids, thr in configs:
         dcs = digest_cases(rng, "eddsa", tr)
@@ -307,6 +365,9 @@ def plan_for(tr, rng, tabs, wd):
         cap = 0 if (big or small) else 9
         kp = probe_cases(urls["eddsa"]["keygen"], ids, rng, share, cap)
         sp = probe_cases(urls["eddsa"]["sign"], ids, rng, share, cap)
+        scap = (0 if len(ids) <= 3 else 60) if big else (12 if ids in ([1, 2, 3], [1, 3, 5], [2, 256, 65535]) else 5)
+        kp += standin_cases(ents["eddsa"]["keygen"], ids, rng, scap)
+        sp += standin_cases(ents["eddsa"]["sign"], ids, rng, scap)
         d0 = digest_cases(rng, "eddsa", "quick")[0][1]
         per = max(1, (len(sp) + max(1, len(kp)) - 1) // max(1, len(kp)))
         spc = chunks(sp, per)
@@ -326,6 +387,7 @@ def plan_for(tr, rng, tabs, wd):
     for p in sp:
         kinds.setdefault(p["kind"], []).append(p)
     sp = kinds["wrapped"][:2 if not big else 14] + kinds["replay"][:2 if not big else 14] + kinds["outsider"][:1 if not big else 8]
+    sp += standin_cases(ents["ecdsa"]["sign"], ids, rng, 3 if not big else 16)
     d0 = digest_cases(rng, "ecdsa", "quick")[0][1]
     sign_list = [dict(digest=d, others=other_digests(rng, d), label=lab, timeout_ms=ms) for lab, d, ms in dcs] + \
                 [dict(digest=d0, others=[], probe=p, label="32") for p in sp]
@@ -336,6 +398,7 @@ def plan_for(tr, rng, tabs, wd):
         kp = probe_cases(urls["ecdsa"]["keygen"], ids, rng, 1.0)
         rng.shuffle(kp)
         seen = set()
+        kp += standin_cases(ents["ecdsa"]["keygen"], ids, rng, 1)
         for p in kp:
             if p["kind"] not in seen:
                 seen.add(p["kind"])
@@ -438,7 +501,7 @@ def validate(traces, wd, tag, par=4, chunk_lines=12000):
         with open(os.path.join(d, name + ".tla"), "w") as f:
             f.write('---- MODULE %s ----\nEXTENDS AdaptersTrace\nc_Parties == {1}\nc_Empty == {}\nc_TraceFile == "%s"\n====\n' % (name, tf))
         with open(os.path.join(d, name + ".cfg"), "w") as f:
-            f.write("CONSTANTS Parties <- c_Parties Byz <- c_Empty Outsiders <- c_Empty Table <- c_Empty MaxSpoof = 0 TrustEmbedded = FALSE\n"
+            f.write("CONSTANTS Parties <- c_Parties Byz <- c_Empty Outsiders <- c_Empty Table <- c_Empty MaxSpoof = 0 TrustEmbedded = FALSE NearestIndex = FALSE\n"
                     "  TraceFile <- c_TraceFile\nINIT TInit\nNEXT TNext\n")
         r = vlib.run_tlc(name, name + ".cfg", ["Adapters.tla", "AdaptersTrace.tla"], workdir=d, workers=1, timeout=1500,
                          keep_prints=["VIOL", "END"], heap="4g")
@@ -472,7 +535,7 @@ def signature(v, m):
         return "SignedDigestIsRequested/%s/%s" % (ad, v["cls"])
     if mon == "NoPanic":
         return "NoPanic/%s/%s/%s" % (ad, m.get("phase", ""), pk)
-    if mon in ("ProbeNoEffect", "SenderAttribution", "EmbeddedMismatchDropped"):
+    if mon in ("ProbeNoEffect", "SenderAttribution", "EmbeddedMismatchDropped", "NonMemberRejected"):
         return "%s/%s/%s/%s" % (mon, ad, m.get("phase", ""), pk)
     if mon in ("DistinctRounds", "ClassifiedAlike", "RunCompletes"):
         return "%s/%s/%s" % (mon, ad, m.get("phase", ""))
@@ -506,7 +569,7 @@ def rerun_alone(one, wd, tag, want_phase):
     traces, dead, _, err = run_driver(job, wd, tag, timeout=2400)
     t_want = 1 if want_phase == "keygen" else 2
     if dead:
-        ev = [dict(t=t_want, e="reset", ad=one["adapter"], ph=want_phase, ids=one["ids"], thr=one["thr"], dg=[], pk="", pp=0, pa=0, pb=0, pf=False, purl=""),
+        ev = [dict(t=t_want, e="reset", ad=one["adapter"], ph=want_phase, ids=one["ids"], thr=one["thr"], dg=[], pk="", pp=0, pa=0, pb=0, pf=False, purl="", pm=0),
               dict(t=t_want, e="panic", p=0, where="process", what=err[-1500:]), dict(t=t_want, e="end", hung=True, setup=True, fired=True)]
         traces[t_want] = ev
     if t_want not in traces:
@@ -597,8 +660,15 @@ def execute(pid, plan, wd, verdict, tr):
                       and e.get("completed") and not e.get("aligned")]
     stats["unaligned"] = len(base_unaligned)
     no_handovers = [t for t, e in ends.items() if plan.meta[t]["phase"] != "table" and e.get("completed") and e.get("nh", 0) == 0]
+    # NonMemberRejected reads the library's rejection from the injected Logger: it is evaluated only if this tree reports such
+    # rejections at all (some hand-over attributed to a non-participant was followed by one)
+    calibrated = any(e.get("cal") for e in ends.values())
     for v in confirmed:
         m = plan.meta[v["t"]]
+        if v["mon"] == "NonMemberRejected" and not calibrated:
+            k = "library rejections not observable through the injected Logger (NonMemberRejected disabled)"
+            stats["drift"][k] = stats["drift"].get(k, 0) + 1
+            continue
         if v["mon"] == "EmbeddedMismatchDropped" and base_unaligned:
             stats["drift"]["hand-over log not aligned with OnMsg calls (count monitor disabled)"] = \
                 stats["drift"].get("hand-over log not aligned with OnMsg calls (count monitor disabled)", 0) + 1
@@ -747,6 +817,11 @@ def selftest(all_traces, plan, wd):
     i = first(ev, lambda o: o["e"] == "end")
     ev.insert(i, dict(t=ev[0]["t"], e="panic", p=1, where="OnMsg"))
     cases.append(("NoPanic", ev))
+    standin = find(lambda m, ev: (m.get("probe") or {}).get("kind") == "standin" and ev[-1].get("fired")
+                   and any(o["e"] == "warn" and o.get("path") == "proto" for o in ev))
+    if standin:
+        ev = [o for o in copy.deepcopy(standin) if not (o["e"] == "warn" and o.get("path") == "proto")]
+        cases.append(("NonMemberRejected", ev))
     ev = copy.deepcopy(table)
     i = first(ev, lambda o: o["e"] == "tcls" and o["k"] == "table" and o["url"].startswith("ecdsa."))
     ev[i]["bc"] = not ev[i]["bc"]
